@@ -49,6 +49,12 @@ struct Access {
     // Structural invariant of a block table: the index has one entry per distinct key, every key reference
     // points at an element of this table's own storage, and index[key(items[i])] is an i' with items[i'] == items[i].
     // returns "" when fine, otherwise a description
+    // address of the object a KeyRef-like key refers to; nullptr when the index map is keyed by something else (restructured table)
+    template<typename KV> static auto key_target(const KV& kv, int) -> decltype(static_cast<const void*>(&kv.first.key_)) { return static_cast<const void*>(&kv.first.key_); }
+    template<typename KV> static const void* key_target(const KV&, long) { return nullptr; }
+    template<typename Item, typename KV> static auto key_equal(const Item& it, const KV& kv, int) -> decltype(it.key() == kv.first.key_) { return it.key() == kv.first.key_; }
+    template<typename Item, typename KV> static bool key_equal(const Item&, const KV&, long) { return true; }
+
     template<typename T, typename K>
     static std::string table_invariant(const CDNS::BlockTable<T, K>& t, bool expect_unique) {
         std::vector<const void*> addrs;
@@ -56,16 +62,18 @@ struct Access {
         for (auto& it : t.items_)
             addrs.push_back(static_cast<const void*>(&it.key()));
         for (auto& kv : t.indexes_) {
-            const void* kp = static_cast<const void*>(&kv.first.key_);
-            bool own = false;
-            for (auto a : addrs)
-                if (a == kp) { own = true; break; }
-            if (!own)
-                return "index key reference points outside this table's storage";
+            const void* kp = key_target(kv, 0);
+            if (kp != nullptr) {
+                bool own = false;
+                for (auto a : addrs)
+                    if (a == kp) { own = true; break; }
+                if (!own)
+                    return "index key reference points outside this table's storage";
+            }
             if (kv.second >= t.items_.size())
                 return "index value out of range";
             // (do not dereference foreign keys: comparison only after ownership is established)
-            if (!(t.items_[kv.second].key() == kv.first.key_))
+            if (!key_equal(t.items_[kv.second], kv, 0))
                 return "index maps key to an item with a different value";
         }
         if (expect_unique && t.indexes_.size() != t.items_.size())
